@@ -71,13 +71,27 @@ func c09RenderEmpty(c *Ctx) {
 			continue
 		}
 		n++
-		for i, ret := range returnsOf(fn) {
-			rv := results(ret)
+		pr := c.Idx().proverFor(fn)
+		// (a return fed by assignments to named results is judged case by case, each with the tests on its path)
+		for _, rc := range returnCases(fn) {
+			i, ret, rv := rc.N-1, rc.Ret, rc.Vals
 			s, e := rv[0], rv[1]
 			ok, why := false, ""
+			errKnownNil := false
+			conds := expandConds(dominatingConds(ret.Block()))
+			if rc.Via != nil && rc.Into != nil {
+				conds = append(conds, pr.edgeConds(rc.Via, rc.Into)...)
+			}
+			for _, cf := range conds {
+				if x, nn, isT := nilTest(cf.Cond); isT && x == e && ((nn == 0 && !cf.Val) || (nn == 1 && cf.Val)) {
+					errKnownNil = true
+				}
+			}
 			switch {
 			case isNil(e):
 				ok, why = true, "error is nil"
+			case errKnownNil:
+				ok, why = true, "the error was tested and is nil on this path"
 			case isEmptyStringConst(s):
 				ok, why = true, "text is \"\""
 			default:
